@@ -626,7 +626,11 @@ func (ctx *actorContext) Children() []ActorRef {
 }
 
 func (ctx *actorContext) onRestart() {
-	ctx.status.Store(actorStatusRestarting)
+	// only a living actor can be restarted: a restart request that arrives while the actor is terminating,
+	// has terminated or is already restarting must not revive it
+	if !ctx.status.CompareAndSwap(actorStatusAlive, actorStatusRestarting) {
+		return
+	}
 
 	ctx.processMessage(ctx.sender, ctx.ref, onRestarting, false)
 
@@ -667,7 +671,10 @@ func (ctx *actorContext) tryRestarted() {
 }
 
 func (ctx *actorContext) onTerminate(gracefully bool) {
-	if !ctx.status.CompareAndSwap(actorStatusAlive, actorStatusTerminating) {
+	// a terminate request that arrives in the middle of a restart (the actor is waiting for its children) wins:
+	// the restart is abandoned and the actor terminates
+	if !ctx.status.CompareAndSwap(actorStatusAlive, actorStatusTerminating) &&
+		!ctx.status.CompareAndSwap(actorStatusRestarting, actorStatusTerminating) {
 		return
 	}
 	// a failed actor that is being stopped is still suspended: let the mailbox drain, from now on every
